@@ -58,7 +58,7 @@ func RunE2(c *Case, o *Outcome, prop string, clk *sim.Clock, n int, body func(ta
 		spec = &SchedSpec{}
 	}
 	cfg := sim.SchedConfig{Policy: spec.Policy, StayProb: spec.StayProb, TickProb: spec.TickProb, Ticks: spec.Ticks,
-		PCTDepth: spec.PCTDepth, EstSteps: spec.EstSteps, MaxSteps: spec.MaxSteps, CanTick: canTick}
+		PCTDepth: spec.PCTDepth, EstSteps: spec.EstSteps, MaxSteps: spec.MaxSteps, CanTick: canTick, PostLoad: spec.PostLoad}
 	if spec.Literal {
 		cfg.Replay = spec.Replay
 		if cfg.Replay == nil {
